@@ -121,6 +121,7 @@ def main():
             "quick_cmd": "./check.sh %s quick" % pid,
             "thorough_cmd": "./check.sh %s thorough" % pid,
             "evidence_file": "/verif/evidence/%s.json" % pid,
+            **({"replay_cmd_template": "./check.sh %s quick --replay {path}" % pid} if pid in ("C14", "C15", "C18", "C19") else {}),
             "engine": eng,
             "level_claimed": {"category": cat, "text": text, "design_ref": "DESIGN.md §" + ref},
             "level_note": note,
